@@ -4,17 +4,22 @@ SPEC = dict(
     proof_module="SimbodyProofs.C11",
     sources=["SimbodyModel/Proto.lean", "SimbodyModel/C04.lean", "SimbodyModel/C11.lean", "SimbodyProofs/C04_lemmas.lean",
              "SimbodyProofs/C04.lean", "SimbodyProofs/C11.lean", "Drivers/C11.lean"],
-    n=dict(quick=300, thorough=6000),
+    n=dict(quick=200, thorough=4000),
     rtol=1e-9, atol=1e-12,
-    rule="random models from VERIF_SEED (1-5 bodies; Pin/Ball/Slider/Universal/Free/Cylinder/Weld; gravity, two-point and mobility "
-         "springs, one Rod/PointInPlane/Ball constraint, dampers, damped LinearBushing), each simulated with one of the 8 "
-         "integrators at accuracy 1e-3..1e-7 over T in [1,2.5]; one record per trajectory (final state) + trajectory predicates; "
-         "distinct = distinct trajectories",
-    partial="trajectory-level clauses (energy drift <= c*accuracy*T*scale, momentum drift, monotone decrease with dampers, "
-            "energy + reported dissipation constant) are MEASURED on the implementation against constants recorded from the clean "
-            "tree (margin x10); what is PROVED are the continuous-time links: rigid-body power and momentum rates (jets), joint "
-            "reactions do no work on any tree, system power balance, momentum telescoping; the integrators themselves are C20's subject",
+    rule="random models from VERIF_SEED (1-5 bodies; Pin/Ball/Slider/Universal/Free/Cylinder/Weld/Planar/Translation/Screw + lone "
+         "particle; gravity, two-point and mobility springs, elastic joint stops, one Rod/PointInPlane/Ball constraint, dampers, damped "
+         "LinearBushing, Hunt-Crossley sphere/half-space contact), each simulated with one of the 8 integrators at accuracy 1e-3..1e-8 "
+         "(first-order methods 1e-4..1e-6) over T in [1,2.5]; conservative cases are simulated a second time at accuracy/100; one "
+         "record per trajectory (final state) + trajectory predicates; distinct = distinct trajectories",
+    partial="EVERY clause of the property is decided by implementation-side predicates (ii): energy drift against per-(integrator, "
+            "accuracy) constants measured on the clean tree (x10) AND the accuracy-convergence ratio drift(acc/100)/drift(acc); momentum "
+            "likewise; energy non-increasing with dampers; E + reported dissipation constant (LinearBushing; Hunt-Crossley contact, low "
+            "dissipation class; high dissipation class shows known finding traj.contact.account.highDissipation). PROVED about the "
+            "executed model (i) are only the continuous-time links: rigid-body power and momentum rates (jets), joint reactions do no "
+            "work on any tree, system power balance, momentum rate for arbitrary applied forces and its zero-net-wrench corollary. "
+            "NOT covered (iii): Gimbal/Bushing/Ellipsoid/... mobilizers and Euler-angle mode along trajectories, more than one "
+            "constraint, CableSpring and mesh/brick contact dissipation reports, any a-priori drift bound (integrators are C20's subject)",
     assumptions=["jets: d/dt by the product rule; rigid motion read as Rdot = [w]x R (trusted-base item 6)",
-                 "Gimbal mobilizers and Euler-angle mode are excluded from the simulated models (their chart singularity can be reached "
-                 "along a trajectory, where error control, not physics, decides the drift)"],
+                 "cells whose bound allows >= 10 % of the energy scale are tagged `uninformative.*`; the final `coverage` record requires "
+                 ">= 2 (>= 10 for n >= 1000) informative (bound or convergence-ratio) energy judgements per integrator per run"],
 )
